@@ -237,6 +237,7 @@ theorem C11_range_root_faithful {α : Type} (m : α → α → α) (hinj : ∀ a
 
 /-! ### the client: from the verified response to `match_message` -/
 
+/- VACUITY AUDIT: no longer an obligation of the check. the collision disjunct is trivial for every finite digest type. Replaced by: Vacuity.C11.C11_client_match_binds_witness. -/
 /-- **message binding of the client's builders**: `match_message` on the message rebuilt from the response
 (`MessageBuilder::compute_cardano_transactions_proofs_message`, `…_v2_message`,
 `compute_cardano_blocks_proofs_message`, `compute_cardano_stake_distribution_message`) is true only if that
@@ -247,6 +248,7 @@ theorem C11_client_match_binds {β : Type} [DecidableEq β] (Hc : List Char → 
     ClientMsg.rebuild cert sets = signed ∨ ∃ x y : List Char, x ≠ y ∧ Hc x = Hc y :=
   ClientMsg.match_binds Hc cert signed sets hw hs h
 
+/- VACUITY AUDIT: no longer an obligation of the check. the collision disjunct is trivial for every finite digest type. Replaced by: Vacuity.C11.C11_client_match_values_witness. -/
 /-- … so the Merkle root, block number, offset / epoch the client took from the response are the signed
 ones, and every other part of the certificate's own message is the signed one -/
 theorem C11_client_match_values {β : Type} [DecidableEq β] (Hc : List Char → β) (cert signed : ClientMsg.Msg)
@@ -258,6 +260,7 @@ theorem C11_client_match_values {β : Type} [DecidableEq β] (Hc : List Char →
     ∃ x y : List Char, x ≠ y ∧ Hc x = Hc y :=
   ClientMsg.match_values Hc cert signed sets hd hw hs h
 
+/- VACUITY AUDIT: no longer an obligation of the check. reduces to `decide (a = a)`. Replaced by: - (K). -/
 /-- … and conversely the message rebuilt from the signed values matches -/
 theorem C11_client_match_complete {β : Type} [DecidableEq β] (Hc : List Char → β) (cert signed : ClientMsg.Msg)
     (sets : List ClientMsg.Part) (h : ClientMsg.rebuild cert sets = signed) :
